@@ -85,7 +85,27 @@ fn run_history(case: &Value, st: &mut Stats) -> V {
     let mut ever_issued: Vec<Vec<bool>> = counts.iter().map(|c| vec![false; *c as usize]).collect();
     let mut fallback_ranges: Vec<(usize, usize)> = vec![];
 
-    for (step, op) in case["ops"].as_array().unwrap().iter().enumerate() {
+    // bulk operations are expanded into single ones; the (costly) whole-pool invariants then run
+    // only after the last of them
+    let mut flat: Vec<(Value, bool)> = vec![];
+    for op in case["ops"].as_array().unwrap() {
+        match op[0].as_str().unwrap_or("") {
+            "alloc_many" => {
+                let n = op[3].as_u64().unwrap_or(0);
+                for k in 0..n {
+                    flat.push((json!(["alloc", op[1], op[2], 0, (k * 7 + 1) & 0xff]), k + 1 == n || k % 1024 == 1023));
+                }
+            }
+            "free_all" => {
+                let n = op[3].as_u64().unwrap_or(0);
+                for k in 0..n {
+                    flat.push((json!(["free", op[1], op[2], k]), k + 1 == n || k % 1024 == 1023));
+                }
+            }
+            _ => flat.push((op.clone(), true)),
+        }
+    }
+    for (step, (op, check_after)) in flat.iter().enumerate() {
         st.ops += 1;
         let kind = op[0].as_str().unwrap_or("");
         let g = |k: usize| op[k].as_u64().unwrap_or(0);
@@ -301,6 +321,9 @@ fn run_history(case: &Value, st: &mut Stats) -> V {
             _ => {}
         }
         // invariants after every operation
+        if !*check_after {
+            continue;
+        }
         for l in &live {
             let got = unsafe { std::slice::from_raw_parts(l.ptr as *const u8, l.len) };
             let ok = match &l.text {
@@ -351,6 +374,21 @@ impl Engine for C12 {
 
     fn generate(&self, seed: u64, i: u64, tier: Tier) -> Value {
         let mut r = Rng::stream(seed, self.tag(), i);
+        if i % 97 == 96 {
+            // the shipped table (16384 slots in the small classes): thousands of buffers of one class
+            // allocated, released and allocated again
+            let size = r.pick(&[0u64, 5, 8, 9, 16, 24, 32, 40, 100, 129, 256]);
+            let n = r.pick(&[600u64, 4097, 5000, 9000]);
+            let mut ops = vec![json!(["alloc_many", 0, size, n])];
+            if r.chance(50) {
+                ops.push(json!(["alloc", 1, size, 0, 77]));
+            }
+            ops.push(json!(["free_all", 0, r.below(3), n]));
+            ops.push(json!(["probe", 3]));
+            ops.push(json!(["alloc_many", 2, size, r.pick(&[10u64, 700, 5000])]));
+            ops.push(json!(["free_all", 2, r.below(3), 5000]));
+            return json!({"counts": pv::default_slot_counts().to_vec(), "ops": ops, "arena_slack": 8u64 << 20});
+        }
         let mode = r.below(4);
         let counts: Vec<u32> = (0..20)
             .map(|_| match mode {
@@ -412,6 +450,7 @@ impl Engine for C12 {
         res.count("fault_backing_arena_full", st.arena_full);
         res.count("releases_of_fallback_buffers", st.noop_frees);
         res.count("ownership_probe_rounds", st.probes);
+        res.count("histories_with_the_shipped_slot_table_and_bulk_churn", u64::from(case["ops"][0][0] == "alloc_many"));
         res.nontrivial = st.reissued > 0 || st.exhaustion_fallbacks > 0;
         match verdict {
             Ok(()) => res,
